@@ -5,6 +5,7 @@ package main
 // KNOWN-FINDING / VIOLATION lines; `vmon replay <file>` re-executes an explicit history.
 
 import (
+	"syscall"
 	"encoding/hex"
 	"crypto/sha256"
 	"runtime/debug"
@@ -38,6 +39,7 @@ func envSeed() uint64 {
 }
 
 func main() {
+	reapSessionBus()
 	if d := os.Getenv("VERIF_DIR"); d != "" {
 		verifDir = d
 	}
@@ -111,6 +113,62 @@ func jobsFor(def *CheckDef, tier string) []Job {
 		}
 	}
 	return jobs
+}
+
+// reapSessionBus: a dependency of the application (99designs/keyring -> godbus) connects to the D-Bus session bus
+// in a package init(); when DBUS_SESSION_BUS_ADDRESS is not set it starts a daemon through dbus-launch, and that
+// daemon (plus its socket under /tmp) outlives the process. No bus is needed here. ./check exports a dummy
+// address, children inherit it; for direct invocations the daemon that init() started for THIS process is found
+// through its listening socket and terminated, and the dummy address is set for everything spawned from here.
+func reapSessionBus() {
+	const dummy = "unix:path=/nonexistent/vmon-no-session-bus"
+	defer os.Setenv("DBUS_SESSION_BUS_ADDRESS", dummy)
+	orig, _ := os.ReadFile("/proc/self/environ")
+	for _, kv := range strings.Split(string(orig), "\x00") {
+		if strings.HasPrefix(kv, "DBUS_SESSION_BUS_ADDRESS=") {
+			return // inherited: nothing was started for this process
+		}
+	}
+	addr := os.Getenv("DBUS_SESSION_BUS_ADDRESS") // set by godbus after dbus-launch
+	path := ""
+	for _, part := range strings.Split(strings.TrimPrefix(addr, "unix:"), ",") {
+		if strings.HasPrefix(part, "path=") {
+			path = strings.TrimPrefix(part, "path=")
+		}
+	}
+	if path == "" || !strings.HasPrefix(path, "/tmp/dbus-") {
+		return
+	}
+	inode := ""
+	if b, err := os.ReadFile("/proc/net/unix"); err == nil {
+		for _, l := range strings.Split(string(b), "\n") {
+			f := strings.Fields(l)
+			if len(f) >= 8 && f[7] == path {
+				inode = f[6]
+			}
+		}
+	}
+	if inode != "" {
+		procs, _ := filepath.Glob("/proc/[0-9]*")
+		for _, pd := range procs {
+			cl, err := os.ReadFile(filepath.Join(pd, "cmdline"))
+			if err != nil || !strings.Contains(string(cl), "dbus-daemon") {
+				continue
+			}
+			fds, _ := filepath.Glob(filepath.Join(pd, "fd", "*"))
+			for _, fd := range fds {
+				if t, err := os.Readlink(fd); err == nil && t == "socket:["+inode+"]" {
+					if pid, err := strconv.Atoi(filepath.Base(pd)); err == nil {
+						if pr, err := os.FindProcess(pid); err == nil {
+							_ = pr.Signal(syscall.SIGTERM)
+						}
+					}
+					break
+				}
+			}
+		}
+	}
+	_ = os.Remove(path)
 }
 
 // ---- child -------------------------------------------------------------------------------------
